@@ -47,7 +47,7 @@ SYMBOL_REGEX = re.compile(
 
 # Patten to recognize an expression
 EXPRESSION_REGEX = re.compile(
-    r"^(?P<left>[$]*\w+)(?P<operation>[+\-/*])(?P<right>[$]*\w+)$"
+    r"^(?P<left>[$]*[\w@]+)(?P<operation>[+\-/*])(?P<right>[$]*[\w@]+)$"
 )
 
 # C L A S S E S  ##############################################################
@@ -457,9 +457,9 @@ class NumericValue(Value):
 
         data = HEX_REGEX.match(value)
         if data:
-            if len(data.group("value")) > 4:
-                raise ValueTypeError("hex value length cannot exceed 4 characters")
             self.int = int(data.group("value"), 16)
+            if self.int > 0xFFFF:
+                raise ValueTypeError("hex value length cannot exceed 4 characters")
             if len(data.group("value")) == 2 and size_hint is None:
                 self.size_hint = 2
                 if self.explict_addressing_mode != ExplicitAddressingMode.IMMEDIATE:
